@@ -24,6 +24,10 @@ def parseAct : List String → Option Act
   | ["forceCloseDelay", us] => us.toNat?.map .forceCloseDelay
   | ["stopRead"] => some .stopRead
   | ["startRead"] => some .startRead
+  | ["setwc", k] => k.toNat?.map .setWc
+  | ["sethwm", k, m] => match k.toNat?, m.toNat? with
+    | some k, some m => some (.setHwm k m)
+    | _, _ => none
   | _ => none
 
 def parseCb : String → Option Cb
@@ -33,8 +37,8 @@ def parseCb : String → Option Cb
 def showEv : Ev → Option String
   | .up => some "cb UP"
   | .msg n h => some s!"cb MSG {n} {h}"
-  | .wc => some "cb WC"
-  | .hwm n => some s!"cb HWM {n}"
+  | .wc k => some s!"cb WC {k}"
+  | .hwm k n => some s!"cb HWM {k} {n}"
   | .down => some "cb DOWN"
   | .closeCb => some "cb CLOSE"
   | .destroyed => some "destroyed"
@@ -86,7 +90,9 @@ def exec (s : St) (ws : List String) : St × List String :=
   let c0 := { c0 with starved := false }
   let (c1, bad, s) : Conn × Bool × St := match ws with
     | ["config", wc, hwm, mark] =>
-      ({ c0 with hasWC := wc = "1", hasHWM := hwm = "1", mark := mark.toNat?.getD 0 }, false, s)
+      -- the harness installs callback 1 (or leaves the member empty)
+      ({ c0 with hasWC := wc = "1", wcId := if wc = "1" then 1 else 0,
+                 hasHWM := hwm = "1", hwmId := if hwm = "1" then 1 else 0, mark := mark.toNat?.getD 0 }, false, s)
     | ["establish"] => (step c0 .establish, false, s)
     | "act" :: who :: rest =>
       match parseAct rest with
